@@ -328,11 +328,13 @@ def traffic(res, T, t, mod, rng):
         if k < 96:
             slot = rng.randrange(k, 96)
             mod.mappings.values[slot] = mod.Mapping((amp.index, 0))       # Amplifier.volume 0..1024
-            try:
-                setattr(mod, f"user_defined_{slot + 1}", rng.randint(0, 1024))
-                res.count("traffic_hidden_slot_writes")
-            except ControllerValueError:
-                res.count("traffic_controller_rejected")
+            vt = mod.user_defined[slot].value_type      # a hidden slot may still carry the type of a former target
+            if type(vt).__name__ in ("Range", "CompactRange") and vt.min <= 0:
+                try:
+                    setattr(mod, f"user_defined_{slot + 1}", rng.randint(0, min(1024, vt.max)))
+                    res.count("traffic_hidden_slot_writes")
+                except ControllerValueError:
+                    res.count("traffic_controller_rejected")
         try:
             amp.volume = rng.randint(0, 1024)
             amp.balance = rng.randint(-128, 128)
